@@ -752,7 +752,9 @@ def corr_steady(ctx, res: CorrResult, models):
         flat = type(ev).__name__.startswith("Flat")
         try:
             g, arr, off = steady_point(ev)
-        except TypeError:      # e.g. one-argument maximum: the plain (non-differentiating) evaluation rejects it
+        except (TypeError, ValueError, FloatingPointError, OverflowError, ZeroDivisionError):
+            # the plain (non-differentiating) evaluation rejects the equation (one-argument maximum) or the point
+            # (NonflatSteadyEquator raises on non-finite residuals): not an admissible evaluation point
             res.distribution["steady_plain_eval_rejects"] = res.distribution.get("steady_plain_eval_rejects", 0) + 1
             continue
         eqs = list(ev._equator._equator._equations)
@@ -937,19 +939,28 @@ def correspondence(ctx) -> CorrResult:
                 "bit-exactly where no exp/ln/power is involved, else within 1e-8 relative. non-trivial = at least 2 map entries / "
                 "3 non-zero derivatives; distinct = distinct source text + point")
     import time
+    import traceback
+    nt = 0
+    models = []
+
+    def phase(name, fn):
+        nonlocal nt
+        t0 = time.time()
+        before = res.evaluations
+        try:
+            nt += fn()
+        except HarnessError as e:
+            res.disagreements.append(Disagreement(f"{name}: outside the modelled language", None, str(e)[:300], None))
+        except Exception as e:  # noqa  -- keep what the earlier phases established
+            res.disagreements.append(Disagreement(f"{name}: harness error", None, traceback.format_exc()[-600:], repr(e)[:200]))
+        ctx.log(f"{name}: {res.evaluations - before} cases, {time.time() - t0:.1f}s")
+    phase("maps", lambda: corr_maps(ctx, res))
     t0 = time.time()
-    nt = corr_maps(ctx, res)
-    ctx.log(f"maps: {res.evaluations} cases, {time.time() - t0:.1f}s"); t0 = time.time()
-    n = ctx.scale(170, 8000)
-    models = make_models(ctx, n, res)
-    ctx.log(f"models: {len(models)} generated, {time.time() - t0:.1f}s"); t0 = time.time()
-    nt += corr_systemize(ctx, res, models)
-    ctx.log(f"systemize: {time.time() - t0:.1f}s"); t0 = time.time()
-    sub = models[: ctx.scale(80, 3000)]
-    nt += corr_steady(ctx, res, sub)
-    ctx.log(f"steady: {res.distribution.get('steady_models')} cases {time.time() - t0:.1f}s"); t0 = time.time()
-    nt += corr_stacked(ctx, res, models[: ctx.scale(70, 2500)])
-    ctx.log(f"stacked: {res.distribution.get('stacked_models')} cases {time.time() - t0:.1f}s")
+    models = make_models(ctx, ctx.scale(170, 8000), res)
+    ctx.log(f"models: {len(models)} generated, {time.time() - t0:.1f}s")
+    phase("systemize", lambda: corr_systemize(ctx, res, models))
+    phase("steady", lambda: corr_steady(ctx, res, models[: ctx.scale(80, 3000)]))
+    phase("stacked", lambda: corr_stacked(ctx, res, models[: ctx.scale(70, 2500)]))
     res.distinct_nontrivial = nt
     res.distribution["models_generated"] = len(models)
     res.distribution["log_variable_models"] = sum(1 for mm in models if mm.spec["logs"])
